@@ -606,6 +606,15 @@ def suggest_clauses(st, it, c, res, mode):
             clauses.append(("transliteration_is_a_candidate",
                             z3.If(quote, texts_equal_any(texts, tr_on), texts_equal_any(texts, tr_off))))
             clauses.append(("cover:transliteration", True))
+    # ---- C03 on concrete special texts: the split is the native one, the conversions the real okkhor's
+    if word is None and shape.get("parts"):
+        p0, w0, t0 = [[ord(ch) for ch in x] for x in shape["parts"]]
+        cv = lambda x: [ord(ch) for ch in shape["conv_table"].get("".join(chr(k) for k in x), "")] if x else []
+        if all(("".join(chr(k) for k in x) in shape["conv_table"]) or not x for x in (p0, w0, t0)):
+            cp, cw, ctr = cv(p0), cv(w0), cv(t0)
+            on = (ref_quote(cp, False) + cw + ref_quote(ctr, True)) if w0 else (cp + cw + ctr)
+            clauses.append(("transliteration_is_a_candidate", z3.If(quote, texts_equal_any(texts, on), texts_equal_any(texts, cp + cw + ctr))))
+            clauses.append(("cover:transliteration", True))
     # ---- C07: the auto-correct entry of the typed word (user entry before bundled entry) is first
     if word is not None and len(word) > 0 and mode == "single":
         uk = orc.memo.get(("user_autocorrect", key_of_elems(word)))
@@ -736,6 +745,24 @@ def suggest_clauses(st, it, c, res, mode):
                     pair.append(seq_eq(a, b) if israw else seq_eq(uncurl(a), uncurl(b)))
                 clauses.append(("smart_quotes_keep_length_and_order", z3.And(pair) if pair else True))
             clauses.append(("smart_quotes_keep_preselection", simp(bv(sel, 64) == bv(sel2, 64))))
+            # with the option on every candidate but the raw typed text carries the curled wrappers
+            if word is not None and len(word) > 0 and len(t1) == len(t2):
+                curl = []
+                npre, ntr = len(cpre), len(ctrail)
+                emoticon_here = orc.memo.get(("emoticon", key_of_elems(term))) is not None
+                for a, b, x in zip(t1, t2, res["first_list"]):
+                    if cls(x) == V["Last"] and not is_sym(num(x)) and num(x) in (1, 3):
+                        continue
+                    if cls(x) == V["Emoji"] and emoticon_here:
+                        continue        # the emoji of an emoticon stands for the whole text and is not wrapped
+                    if len(a) != len(b) or len(a) < npre + ntr:
+                        curl.append(z3.BoolVal(False))
+                        continue
+                    t_on = [z3.If(quote, bv(p_, 32), bv(q_, 32)) for p_, q_ in zip(a, b)]
+                    t_off = [z3.If(quote, bv(q_, 32), bv(p_, 32)) for p_, q_ in zip(a, b)]
+                    want = ref_quote(cpre, False) + t_off[npre:len(t_off) - ntr] + ref_quote(ctrail, True)
+                    curl.append(seq_eq(t_on, want))
+                clauses.append(("smart_quotes_curl_every_candidate", z3.And(curl) if curl else True))
             clauses.append(("cover:quote_pair", True))
     return clauses
 
@@ -765,8 +792,8 @@ def special_term_shapes(terms, **kw):
     data = bundled_data()
     real = dict(emoticon=data["emoticon"], emoji_name=data["emoji_name"])
     shapes = []
-    for t in terms:
-        d = dict(term=t, wlen=0, pre="", trail="", conv_table=table, real_tables=real)
+    for t, r in zip(terms, res):
+        d = dict(term=t, wlen=0, pre="", trail="", conv_table=table, real_tables=real, parts=r.get("parts"))
         d.update(kw)
         shapes.append(d)
     return shapes
@@ -859,11 +886,17 @@ def learn_search(vs):
     opts = dict(v["inputs"]["opts"])
     jopts = {"phonetic_suggestion": True, "english": bool(opts.get("english")), "smart_quote": bool(opts.get("smart_quote")), "ansi": False}
     term = v["inputs"]["term"]
-    pre = term[0] if term and not term[0].isalnum() else ""
-    trail = term[-1] if term and not term[-1].isalnum() else ""
+    i = 0
+    while i < len(term) and not term[i].isalnum():
+        i += 1
+    j = len(term)
+    while j > i and not term[j - 1].isalnum():
+        j -= 1
+    pre, trail = term[:i], term[j:]
     words = ["sesh", "ami", "kotha"]
     cfg = {"layout": "avro_phonetic", "database": REPO + "/data", "opts": jopts}
-    texts = [pre + w + trail for w in words] + [w + "." for w in words] + ["\"" + w + "\"" for w in words]
+    texts = [pre + w + trail for w in words] + [w + "." for w in words] + ["\"" + w + "\"" for w in words] + [w + ":`" for w in words]
+    texts = [t for t in dict.fromkeys(texts) if all(ch in keys for ch in t)]
     # pass 1: lists
     scs = [{"steps": [{"op": "new", "config": cfg}] + [{"op": "key", "key": keys[ch], "sel": 0} for ch in t]} for t in texts]
     res = run_replay(scs)
@@ -1095,6 +1128,7 @@ def obl_emoji(check, conv_table, thorough=False, budget_s=None):
     kw = dict(mode="single", dict_max=1, emoji_count=2, suffixes=False, selections=False, autocorrect=False, user_autocorrect=False, dist_mode="fixed",
               preconsult_emoji=True)
     shapes = base_shapes((WRAPPERS_QUICK + [("", ",,"), (",,", "")]) if thorough else (WRAPPERS_QUICK[:6] + [("", ",,")]), [1, 2] if thorough else [1], conv_table, **kw)
+    shapes += special_term_shapes(SPECIAL_TERMS + [":`)", "(:`)", ":`:`", "a:`", "`", "``"], **dict(kw, preconsult_emoji=False))
     check.bounds["assembly_emoji"] = dict(word="1%s symbolic letters/digits" % ("-2" if thorough else ""), wrappers=[s["pre"] + "W" + s["trail"] for s in shapes][:12],
                                           data="emoticon for the whole text present or absent; emoji name with 2 distinct emoji present or absent; 0-1 dictionary word",
                                           options="English, ANSI, smart quotes symbolic")
@@ -1679,8 +1713,117 @@ def fixed_clauses(st, it, c, res, mode):
             for a, b, x in zip(texts, t2, ranks):
                 pair.append(seq_eq(a, b) if cls(x) == V["Last"] else seq_eq(uncurl(a), uncurl(b)))
             clauses.append(("smart_quotes_keep_length_and_order", z3.And(pair) if pair else True))
+            if len(word) > 0:
+                curl = []
+                npre, ntr = len(pre), len(trail)
+                emoticon_here = orc.memo.get(("emoticon", key_of_elems(typed))) is not None
+                for a, b, x in zip(texts, t2, ranks):
+                    if cls(x) == V["Last"]:
+                        continue
+                    if cls(x) == V["Emoji"] and emoticon_here:
+                        continue        # the emoji of an emoticon typed with these keys is not wrapped
+                    if len(a) != len(b) or len(a) < npre + ntr:
+                        curl.append(z3.BoolVal(False))
+                        continue
+                    t_on = [z3.If(quote, bv(p_, 32), bv(q_, 32)) for p_, q_ in zip(a, b)]
+                    t_off = [z3.If(quote, bv(q_, 32), bv(p_, 32)) for p_, q_ in zip(a, b)]
+                    want = ref_quote(pre, False) + t_off[npre:len(t_off) - ntr] + ref_quote(trail, True)
+                    curl.append(seq_eq(t_on, want))
+                clauses.append(("smart_quotes_curl_every_candidate", z3.And(curl) if curl else True))
         clauses.append(("cover:quote_pair", True))
     return clauses
+
+
+def probhat_keys():
+    """Bengali character / ASCII punctuation -> (key code, modifier) through the bundled Probhat layout."""
+    from common import keyname_spec, published_keys
+    lay = json.load(open(os.path.join(REPO, "data", "Probhat.json"), encoding="utf-8"))["layout"]
+    codes = {n: c for n, c in published_keys()}
+    stem_to_code = {}
+    for name, (cp, stem, kind) in keyname_spec().items():
+        if kind == "key" and name in codes:
+            stem_to_code[stem] = codes[name]
+    out = {}
+    for k, v in lay.items():
+        m = __import__("re").match(r"Key_(.*)_(Normal|AltGr)$", k)
+        if m and len(v) >= 1 and m.group(1) in stem_to_code and v not in out:
+            out[v] = (stem_to_code[m.group(1)], 2 if m.group(2) == "AltGr" else 0)
+    return out
+
+
+def fixed_list_search(vs):
+    """Native confirmation for the fixed assembly clauses: Bengali emoji names, dictionary prefixes and emoticons typed through Probhat,
+    bare and wrapped in quotes/brackets, under the option settings; each clause's predicate is evaluated on the real lists."""
+    clause = vs[0]["clause"]
+    keys = probhat_keys()
+    data = bundled_data()
+    un = {0x2018: "'", 0x2019: "'", 0x201C: '"', 0x201D: '"'}
+    words = ["হাসি", "কুল", "লল", "আমা", "দাদ", "কর", "আগুন", "ঘর", "ক"]
+    wraps = [("", ""), ('"', '"'), ("'", "'"), ("(", ")"), ('"', "")]
+    scs = []
+    meta = []
+    for w in words:
+        for pre, trail in wraps:
+            text = pre + w + trail
+            if any(ch not in keys for ch in text):
+                continue
+            for sq in (True, False):
+                for en in (False, True):
+                    for ansi in (False, True):
+                        cfg = {"layout": os.path.join(REPO, "data", "Probhat.json"), "database": REPO + "/data",
+                               "opts": {"fixed_suggestion": True, "smart_quote": sq, "english": en, "ansi": ansi, "kar": False}}
+                        steps = [{"op": "new", "config": cfg}] + [{"op": "key", "key": keys[ch][0], "mod": keys[ch][1]} for ch in text] + [{"op": "get_state"}]
+                        scs.append({"steps": steps})
+                        meta.append((w, pre, trail, sq, en, ansi))
+    res = run_replay_parallel(scs)
+
+    def curl(t, closing):
+        return "".join({"'": "’" if closing else "‘", '"': "”" if closing else "“"}.get(ch, ch) for ch in t)
+    for (w, pre, trail, sq, en, ansi), sc, r in zip(meta, scs, res):
+        rr = r["results"]
+        last = rr[-2]
+        if "panic" in last:
+            return sc, last, "fixed mode: typing %r panics: %s" % (pre + w + trail, last["panic"]), None
+        st = rr[-1]["state"]
+        ranks = st["suggestions"]
+        lst = [t for k, t, n in ranks]
+        buf, typed = st["buffer"], st["typed"]
+        qp, qt = (curl(pre, False), curl(trail, True)) if sq else (pre, trail)
+        bad = None
+        if not lst or lst[0] != qp + w + qt:
+            bad = ("first_candidate_is_the_composed_text", "the first candidate is %r" % (lst[:1],))
+        elif len(lst) > 9:
+            bad = ("at_most_nine", "%d candidates" % len(lst))
+        elif len(set(lst)) != len(lst):
+            bad = ("no_candidate_twice", "a candidate occurs twice")
+        else:
+            ems = data["emoji_bengali"].get(w)
+            emo = data["emoticon"].get(typed)
+            emoji_items = [t for k, t, n in ranks if k == 1]
+            if ansi and (emoji_items or any(k == 3 for k, t, n in ranks)):
+                bad = ("ansi_offers_no_emoji_or_raw_text", "ANSI on but emoji / raw text offered")
+            elif not ansi and emo is None and ems:
+                want = [qp + e + qt for e in ems]
+                got = [t for t in emoji_items]
+                if got != want[:len(got)] or (len(got) < len(want) and len(lst) < 9 - (1 if en else 0)):
+                    bad = ("bengali_emoji_name_offers_all_its_emoji_in_table_order_wrapped", "emoji offered %s, expected %s" % (got, want))
+            if bad is None and sq and any((("'" in t[:len(pre)]) or ('"' in t[:len(pre)]) or ("'" in t[len(t) - len(trail):] if trail else False) or
+                                         ('"' in t[len(t) - len(trail):] if trail else False)) for k, t, n in ranks if k != 3) and (pre or trail):
+                bad = ("smart_quotes_curl_every_candidate", "a candidate keeps a straight wrapping quote")
+            if bad is None:
+                ds = [n for k, t, n in ranks if k == 2]
+                if ds != sorted(ds):
+                    bad = ("non_emoji_candidates_by_distance", "distances %s" % ds)
+            if bad is None:
+                raw = [t for k, t, n in ranks if k == 3]
+                want_raw = en and not ansi and buf != typed
+                if (raw != [typed]) if want_raw else bool(raw):
+                    bad = ("english_candidate_iff_enabled_and_not_ansi_and_different", "raw candidates %s" % raw)
+        if bad is not None:
+            role = "fixed assembly: " + bad[0]
+            return sc, last, "fixed mode (smart quotes %s, English %s, ANSI %s): typed %r composes %r and offers %s: %s" % (
+                sq, en, ansi, typed, buf, lst, bad[1]), role
+    return None
 
 
 def obl_fixed_assembly(check, thorough=False, budget_s=None, mode="single"):
@@ -1714,12 +1857,22 @@ def obl_fixed_assembly(check, thorough=False, budget_s=None, mode="single"):
     groups = {}
     for v in vio:
         groups.setdefault("fixed assembly: " + v["clause"], []).append(v)
-    for key, vs in sorted(groups.items()):
-        check.obligation(name + ":" + key, "mirsym", "inconclusive",
-                         "counterexample under the data oracles; no native search for this clause yet: typed %r composed %r, answers %s -> %s" % (
-                             vs[0]["inputs"]["typed"], vs[0]["inputs"]["buffer"], json.dumps(vs[0]["inputs"]["oracle_answers"], ensure_ascii=False)[:300],
-                             json.dumps(vs[0]["predicted"], ensure_ascii=False)[:300]))
-    check.obligation(name, "mirsym", "inconclusive", "%d counterexample models" % len(vio))
+    status = "held"
+    worst = {"held": 0, "known": 1, "inconclusive": 2, "violated": 3}
+    found = fixed_list_search(vio)
+    if found is None:
+        for key, vs in sorted(groups.items()):
+            check.obligation(name + ":" + key, "mirsym", "inconclusive",
+                             "counterexample under the data oracles was not re-found natively: typed %r composed %r, answers %s -> %s" % (
+                                 vs[0]["inputs"]["typed"], vs[0]["inputs"]["buffer"], json.dumps(vs[0]["inputs"]["oracle_answers"], ensure_ascii=False)[:300],
+                                 json.dumps(vs[0]["predicted"], ensure_ascii=False)[:300]))
+        status = "inconclusive"
+    else:
+        sc, obs, what, role = found
+        check.stats["traces_validated"] += 1
+        status = check.finding(role or sorted(groups)[0], what, dict(scenario=sc, observed=obs, solver_counterexample=vio[0]["inputs"]))
+        check.sample(dict(obligation=name, counterexample=vio[0]["inputs"], role=role))
+    check.obligation(name, "mirsym", status, "%d counterexample models" % len(vio))
 
 
 # ------------------------------------------------------------------------- C15: regex hygiene of the fixed search
